@@ -697,7 +697,7 @@ func installRetries(n *harness.Node, r *orch.Result, seed int64, e forge.Eras) f
 		if special[h] || (h >= e.V20 && h%144 == 0) {
 			// one kind of failure per height (a second failure could repair what the first one broke):
 			// which one is decided by seed and height
-			return (int64(h)/2+seed)%2 == k/2
+			return (int64((uint64(h)*2654435761)>>9)+seed)%2 == k/2
 		}
 		return (int64(h)+seed)%4 == k
 	}
